@@ -574,6 +574,13 @@ func NewExocoreApp(
 		authAddrString,        // authority to edit params
 	)
 
+	// the delegation hooks must be set before the delegation keeper is handed out by value
+	// (the EVM precompiles keep a copy): a copy taken earlier has no hooks, so undelegations
+	// arriving through the precompile would never be held for the unbonding epochs.
+	(&app.DelegationKeeper).SetHooks(
+		app.StakingKeeper.DelegationHooks(),
+	)
+
 	// these two modules aren't finalized yet.
 	app.RewardKeeper = rewardKeeper.NewKeeper(
 		appCodec, keys[rewardTypes.StoreKey], app.AssetsKeeper,
@@ -790,10 +797,6 @@ func NewExocoreApp(
 	// set the hooks at the end, after all modules are instantiated.
 	(&app.OperatorKeeper).SetHooks(
 		app.StakingKeeper.OperatorHooks(),
-	)
-
-	(&app.DelegationKeeper).SetHooks(
-		app.StakingKeeper.DelegationHooks(),
 	)
 
 	(&app.EpochsKeeper).SetHooks(
